@@ -279,7 +279,7 @@ def main(argv):
     c.grep_gate()
 
     # ---- cases
-    n_cases = 1500 if c.tier == "quick" else 30000
+    n_cases = 1200 if c.tier == "quick" else 30000
     cases = []
     for i, cc in enumerate(CORPUS):
         d = dict(cc)
@@ -335,12 +335,16 @@ def main(argv):
     evaluated = 0
     models_ok = c.coq_make(["Model/C06Run.vo"])[0] if tok else False
     if models_ok:
-        shard = 750
+        shard = 250
+        hdefs = "\n".join("Definition h%d : hash := %s." % (i, coq_hash_lit(h)) for i, h in enumerate(HASH_POOL))
+        jobs = []
         for si in range(0, len(done), shard):
             sh = done[si:si + shard]
-            hdefs = "\n".join("Definition h%d : hash := %s." % (i, coq_hash_lit(h)) for i, h in enumerate(HASH_POOL))
-            body = CASES_HEADER % (hdefs, ";\n".join(coq_case(x, obs[x["id"]]) for x in sh))
-            ok, cout = c.coq_eval("c06_cases_%d" % (si // shard), body)
+            jobs.append((si // shard, sh, CASES_HEADER % (hdefs, ";\n".join(coq_case(x, obs[x["id"]]) for x in sh))))
+        from concurrent.futures import ThreadPoolExecutor
+        with ThreadPoolExecutor(max_workers=6) as ex:
+            results = list(ex.map(lambda j: c.coq_eval("c06_cases_%d" % j[0], j[2]), jobs))
+        for (si, sh, _), (ok, cout) in zip(jobs, results):
             if not ok:
                 c.fail_obligation("cases-eval", cout[-1500:])
                 break
